@@ -262,6 +262,12 @@ def run(ck, prog, ctx):
             if not nn and not dn and (private_source(d["num"]) or private_source(d["den"])):
                 ck.undecided("FIELD", "GraphIc/numerator", "GraphIc sums over what the crate-private %s yields: which ancestor sets that walks is not read by this rule" % (private_source(d["num"]) or private_source(d["den"])), where=gi.where(d["line"]))
                 nn = dn = None
+            if nn is not None and not nn and not dn:
+                # neither sum is taken over a set an ancestor query hands out (a merge pass over the two sorted ancestor lists, an explicit loop):
+                # which ids each accumulator sees is not read by this rule
+                ck.undecided("FIELD", "GraphIc/numerator", "GraphIc's sums are not taken over the result of an ancestor query (a hand-written walk?): which ids enter the numerator is not decided", where=gi.where(d["line"]) if "line" in d else gi.where())
+                ck.undecided("FIELD", "GraphIc/denominator", "see GraphIc/numerator", where=gi.where())
+                nn = dn = None
             if nn is not None:
                 ck.ob("FIELD", "GraphIc/numerator", bool(nn) and all(n.startswith("all_common_ancestor") for n in nn), "GraphIc's numerator sums the IC over %s (expected the inclusive common ancestors)" % (nn or "?"), where=gi.where(d["line"]))
             if dn is not None:
